@@ -1172,3 +1172,22 @@ Proof.
     unfold plain_blob. cbn. split; apply hex_plain.
   - constructor; [|constructor]. unfold plain_blob, terminator. cbn. split; [apply hex_plain | exact I].
 Qed.
+
+(* ------------------------------------------------------------------------------------------ *)
+(* toy primitives satisfying the three hypotheses, to show the theorems are not vacuous *)
+Definition H0 (x : bytes) : bytes :=
+  repeat (byte_of_N (fold_left (fun a b => (a * 31 + N_of_byte b) mod 251)%N x 7%N)) 48.
+Definition E0 (k iv p : bytes) : bytes :=
+  let pad := (16 - length p mod 16)%nat in p ++ repeat (byte_of_N (N.of_nat pad)) pad.
+Definition D0 (k iv c : bytes) : option bytes :=
+  match rev c with
+  | x :: _ => Some (firstn (length c - N.to_nat (N_of_byte x)) c)
+  | [] => None
+  end.
+Definition ex_file : bytes := bytes_of_Ns [1; 2; 3; 4; 5; 6; 7]%N.
+Definition ex_name : list N := [97; 47; 98; 46; 116; 1; 120; 116]%N.    (* "a/b.t\x01xt" *)
+Definition ex_key : bytes := bytes_of_Ns [0; 1; 2; 3; 4; 5; 6; 7; 8; 9; 10; 11; 12; 13; 14; 15]%N.
+Definition ex_ivf (i : nat) : bytes := repeat (byte_of_N (N.of_nat i)) 16.
+Definition ex_stream := build_stream H0 E0 4 ex_name ex_key ex_ivf ex_file.
+
+Definition tamper_key (j : sdj) : sdj := mkSdj (j_name j) (hex ex_file ++ skipn 14 (j_key j)) (j_sugg j) (j_blobs j) (j_shash j).
